@@ -106,7 +106,17 @@ def make_case(r, thorough, i):
     nn = int(r.integers(1, 4))
     bk = ['ggm', 'pauli', 'partial', 'nontraceless'][i % 4]
     noise = ['generic', 'traceless', 'identity-part', 'generic'][(i // 4) % 4]
+    permuted = (i % 8 == 5)
+    if permuted:
+        d, noise = 2, ['identity-part', 'generic'][(i // 8) % 2]
     p, tags = gen.rand_pulse(r, d=d, G=G, nn=nn, basis_kind=bk, noise=noise)
+    if permuted:
+        # Pauli elements with the identity element NOT first (istraceless is True, tr C_0 = 0)
+        perm = [[1, 2, 3, 0], [1, 0, 2, 3], [3, 1, 0, 2]][int(r.integers(0, 3))]
+        pb = ff.Basis(ff.Basis.pauli(1).view(np.ndarray)[perm].copy())
+        p = ff.PulseSequence(list(zip(p.c_opers, p.c_coeffs, p.c_oper_identifiers)),
+                             list(zip(p.n_opers, p.n_coeffs, p.n_oper_identifiers)), p.dt, basis=pb)
+        tags['basis'] = 'permuted'
     gk = ['one-sided', 'two-sided', 'symmetric'][i % 3]
     om = grid(r, p, gk, int(r.integers(3, 6)))
     shape = 1 + (i // 2) % 3
@@ -215,6 +225,14 @@ def predicates_total(c):
                 sig = 'c08-infid-vs-cumulant-trace'
             bad.append(('infidelity = -tr K/d^2', sig, 'infidelity %s vs -tr K/d^2 %s (basis.istraceless=%s)'
                         % (np.round(infid.ravel()[:4], 6), np.round(tk.ravel()[:4], 6), p.basis.istraceless)))
+        # ... and the same value as in the identity-first GGM basis (C12 in one line; needs a complete basis)
+        if p.basis.iscomplete:
+            pg = ff.PulseSequence(list(zip(p.c_opers, p.c_coeffs, p.c_oper_identifiers)),
+                                  list(zip(p.n_opers, p.n_coeffs, p.n_oper_identifiers)), p.dt, basis=ff.Basis.ggm(d))
+            ig = ff.infidelity(pg, S, om, n_oper_identifiers=ids)
+            if np.abs(ig - infid).max() > 1e-9 * max(iscale, np.abs(ig).max()):
+                bad.append(('infidelity basis independent', 'c08-infid-vs-ggm-basis', 'infidelity %s differs from %s in the GGM basis'
+                            % (np.round(infid.ravel()[:4], 6), np.round(ig.ravel()[:4], 6))))
         infid_full = ff.infidelity(gen.fresh(p), c['Sfull'], om)
         isl = infid_full[idx] if shape < 3 else infid_full[idx[:, None], idx]
         if np.abs(isl - infid).max() > 1e-12 * max(iscale, np.abs(infid_full).max()):
